@@ -572,7 +572,57 @@ class Prop:
             cases.append([5, self.gen_attrs(rng, mode), rng.choice([0, 0x0a000002]), 0x01020304])
             cases.append([6, self.gen_attrs(rng, mode)])
             cases.append([7, self.gen_attrs(rng, mode)])
+        # --- process_nlri_change: the complete matrix, one best path, both branches
+        for s_, d, cid, confed in self.matrix():
+            for emax in (1, 2):
+                for local_nh_kind in (0, 1):
+                    x = self.gen_ctx(rng, d, confed)
+                    mode = 'any' if rng.random() < 0.1 else 'wire'
+                    src = list(s_)
+                    if src[0] == 2:
+                        src[6] = 1 if rng.random() < 0.3 else 0
+                    p = [rng.choice([1, 2, 3]), src, self.gen_nh(rng) if local_nh_kind else [[0, [10, 0, 0, 9]]],
+                         self.gen_attrs(rng, mode)]
+                    ch = [rng.choice([IPV4, IPV4, IPV4, IPV6, FLOWSPEC4]), 1, 1, 1, [], [p]]
+                    cases.append([9, x, emax, self.ADDR4[0], cid, ch, [0] if emax == 1 else [2, []], [1, 2]])
+        # --- process_nlri_change: random histories (several paths, export map pre-state, echo collisions)
+        for _ in range(500 * scale):
+            cases.append(self.gen_process(rng))
+        # --- receive side
+        for role in ROLES:
+            for _ in range(40 * scale):
+                mode = 'any' if rng.random() < 0.15 else 'wire'
+                x = self.gen_ctx(rng, role)
+                cid = [0x01020304] if (role in (IBGP, RRC) or rng.random() < 0.1) else []
+                cases.append([10, x, 0x01000001, cid, self.gen_attrs(rng, mode)])
         return cases
+
+    def gen_process(self, rng):
+        d = rng.choice(ROLES)
+        x = self.gen_ctx(rng, d)
+        emax = rng.choice([1, 1, 2, 3, 255])
+        raddr = rng.choice(self.ADDR4[:3] + self.ADDR6[:2])
+        cid = [0x01020304] if (d in (IBGP, RRC) and rng.random() < 0.9) or rng.random() < 0.1 else []
+        npaths = rng.choice([0, 1, 1, 2, 3, 4])
+        pids = rng.sample([1, 2, 3, 4, 5], npaths)
+        paths = []
+        for pid in pids:
+            mode = 'any' if rng.random() < 0.05 else 'wire'
+            paths.append([pid, self.gen_source(rng), self.gen_nh(rng), self.gen_attrs(rng, mode)])
+        fam = rng.choice([IPV4, IPV4, IPV4, IPV6, FLOWSPEC4, FLOWSPEC6_VPN])
+        dest = rng.choice([1, 2])
+        ch = [fam, dest, 1 if rng.random() < 0.9 else 0, 1 if rng.random() < 0.9 else 0,
+              [rng.choice([1, 2, 3])] if rng.random() < 0.3 else [], paths]
+        k = rng.random()
+        plain = (emax == 1) != (k < 0.1)
+        if k > 0.9:
+            em = [0]
+        elif plain:
+            em = [1, sorted(rng.sample([1, 2, 3], rng.choice([0, 1, 2])))]
+        else:
+            em = [2, [[dd, sorted(rng.sample([0, 1, 2, 3, 4, 5], rng.choice([1, 2, 3])))]
+                      for dd in sorted(rng.sample([1, 2, 3], rng.choice([0, 1, 2])))]]
+        return [9, x, emax, raddr, cid, ch, em, [1, 2, 3]]
 
     # ---------------------------------------------------------------- running
     def run_impl(self, cases, tier):
@@ -689,6 +739,77 @@ class Prop:
             if (role == RS) != (d == RS) and obs[2] != 1:
                 return 'route-server boundary not enforced'
             return None
+        if t == 9:
+            return self.oracle_process(c, obs)
+        if t == 10:
+            if not attrs_wf(c[4]):
+                return None
+            if obs == [-1]:
+                return 'receive path panicked on decodable attributes'
+            x, rid, cid, attrs = c[1], c[2], c[3], c[4]
+            p = path_of(attrs)
+            why = None
+            if p[0] == 'ok' and (x[1] in flat(p[1]) or (x[4] != 0 and x[4] in flat(p[1]))):
+                why = 'AS_PATH contains the local AS / confederation id'
+            o = find(attrs, ORIGINATOR_ID)
+            if o is not None and o[3] == rid:
+                why = 'ORIGINATOR_ID is the local router id'
+            cl_ = find(attrs, CLUSTER_LIST)
+            if cid and cl_ is not None and be32(cid[0]) in chunks4(cl_[3]):
+                why = 'CLUSTER_LIST contains the local cluster id'
+            if why and obs != []:
+                return 'route installed although ' + why
+            return None
+        return None
+
+    def oracle_process(self, c, obs):
+        x, emax, raddr, cid, ch = c[1], c[2], c[3], c[4], c[5]
+        fam, paths = ch[0], ch[5]
+        if obs == [-1]:
+            if all(attrs_wf(p[3]) for p in paths):
+                return 'process_nlri_change panicked on decodable attributes'
+            return None
+        d = x[0]
+        for op in obs[0]:
+            if op[0] != 1:
+                continue
+            pid, nh_out, out, src_o = op[2], op[3], op[4], op[5]
+            if emax == 1:
+                cand = paths[:1]
+            else:
+                cand = [p for p in paths if p[0] == pid]
+            if len(cand) != 1:
+                return 'advertisement of a path that is not in the change'
+            p = cand[0]
+            (s_raddr, rasn, lasn, rid, srole, llgr, is_local) = src_fields(p[1])
+            what = 'process_nlri_change (%s -> %s)' % (ROLE_NAMES[srole] if p[1][0] == 2 else ('local', 'kernel')[p[1][0]], ROLE_NAMES[d])
+            if s_raddr == raddr:
+                return what + ': route advertised back to the peer it was learned from'
+            peer = p[1][0] == 2
+            if peer and srole == IBGP and rasn == lasn and d == IBGP:
+                return what + ': non-client iBGP route advertised to a non-client iBGP peer'
+            if (srole == RS) != (d == RS):
+                return what + ': route crossed the route-server boundary'
+            why = spec_nexthop(x, p[2], nh_out, fam, is_local, what)
+            if why:
+                return why
+            if not attrs_wf(p[3]):
+                continue
+            if d == EBGP and find(out, MED) is not None:
+                return what + ': received MED sent to an eBGP peer'
+            why = spec_attrs_for_dest(x, p[3], out, what)
+            if why:
+                return why
+            if peer and srole in (IBGP, RRC) and rasn == lasn and d in (IBGP, RRC):
+                if not cid:
+                    return what + ': iBGP route reflected without a cluster id'
+                why = spec_reflect(p[3], out, rid, cid[0], what)
+                if why:
+                    return why
+            if llgr:
+                why = spec_llgr(out, what)
+                if why:
+                    return why
         return None
 
     def in_known_class(self, kf, c, obs, why):
@@ -718,6 +839,15 @@ class Prop:
             return (t, self._shape(c[1]), self._shape(obs)) if obs != c[1] else None
         if t == 8:
             return (t, c[1][0], c[1][5] if c[1][0] == 2 else -1, c[2], bool(c[3]), tuple(obs)) if (obs[1] or obs[2]) else None
+        if t == 9:
+            ch = c[5]
+            srcs = tuple((p[1][0], p[1][5] if p[1][0] == 2 else -1) for p in ch[5])
+            ops = tuple((o[0], self._shape(o[4]) if o[0] == 1 else ()) for o in obs[0])
+            if not ch[5] and not obs[0]:
+                return None
+            return (t, c[1][0], c[1][4] != 0, min(c[2], 2), bool(c[4]), srcs, ops)
+        if t == 10:
+            return (t, c[1][0], bool(c[3]), obs == [], self._shape(c[4]))
         return None
 
     def classify(self, c, obs):
@@ -726,6 +856,12 @@ class Prop:
         tags = ['op_' + names[c[0]]]
         if obs == [-1]:
             tags.append('panic')
-        if c[0] in (3, 4):
+        if c[0] in (3, 4, 9, 10):
             tags.append('dest_' + ROLE_NAMES[c[1][0]])
+        if c[0] == 9 and obs != [-1]:
+            tags.append('emax_%s' % ('1' if c[2] == 1 else 'addpath'))
+            tags.append('reach_%d' % min(3, sum(1 for o in obs[0] if o[0] == 1)))
+            if any(o[0] == 0 for o in obs[0]): tags.append('withdraw')
+        if c[0] == 10 and obs == []:
+            tags.append('rx_dropped')
         return tags
